@@ -7,6 +7,7 @@ import (
 	"fmt"
 	"os"
 	"runtime"
+	"runtime/debug"
 	"sort"
 	"strconv"
 	"strings"
@@ -126,6 +127,21 @@ func c04Changed(ts *tstate.TState) map[string]mval {
 	return out
 }
 
+// c04ChangedEq compares TState.ChangedKeys() with the model's block layer without copying.
+func c04ChangedEq(ts *tstate.TState, want map[string]mval) bool {
+	got := ts.ChangedKeys()
+	if len(got) != len(want) {
+		return false
+	}
+	for k, v := range got {
+		w, ok := want[k]
+		if !ok || w.Ok != v.HasValue() || (w.Ok && w.V != string(v.Value())) {
+			return false
+		}
+	}
+	return true
+}
+
 func c04ShowVal(v mval) string {
 	if !v.Ok {
 		return "absent"
@@ -236,7 +252,8 @@ func c04Exec(c *c04Case, skip func(string)) (info c04Info, err error) {
 			v.Commit()
 		}
 	}
-	if got := c04Changed(ts); !c04SameMap(got, m.block) {
+	if !c04ChangedEq(ts, m.block) {
+		got := c04Changed(ts)
 		return info, fmt.Errorf("seeding block-level changes through one-op views: TState.ChangedKeys()=%s, want %s (base %s)",
 			c04ShowMap(got), c04ShowMap(m.block), c04ShowMap(base))
 	}
@@ -249,7 +266,7 @@ func c04Exec(c *c04Case, skip func(string)) (info c04Info, err error) {
 		commitsWithOps int
 		rolledBack     bool
 	)
-	sweep := func(when string) error {
+	sweep := func(when fmt.Stringer) error {
 		for i := 0; i < n; i++ {
 			got, gerr := c04RealGet(view, c04Keys[i])
 			if gerr != nil {
@@ -271,18 +288,21 @@ func c04Exec(c *c04Case, skip func(string)) (info c04Info, err error) {
 		}
 		return cnt
 	}
-	commit := func(when string) error {
-		if err := sweep(when + " (before commit)"); err != nil {
+	commit := func(when fmt.Stringer) error {
+		if err := sweep(c04Str(when.String() + " (before commit)")); err != nil {
 			return err
 		}
-		before := c04Changed(ts)
-		if !c04SameMap(before, m.block) {
-			return fmt.Errorf("%s: TState.ChangedKeys() moved without a commit: %s, model %s", when, c04ShowMap(before), c04ShowMap(m.block))
+		if !c04ChangedEq(ts, m.block) {
+			return fmt.Errorf("%s: TState.ChangedKeys() moved without a commit: %s, model %s", when, c04ShowMap(c04Changed(ts)), c04ShowMap(m.block))
+		}
+		before := map[string]mval{}
+		for k, v := range m.block {
+			before[k] = v
 		}
 		published := m.commit()
 		view.Commit()
-		after := c04Changed(ts)
-		if !c04SameMap(after, m.block) {
+		if !c04ChangedEq(ts, m.block) {
+			after := c04Changed(ts)
 			return fmt.Errorf("%s: after Commit TState.ChangedKeys()=%s; before it was %s and the view differed from the underlying state exactly on %s, so it must be %s",
 				when, c04ShowMap(after), c04ShowMap(before), c04ShowMap(published), c04ShowMap(m.block))
 		}
@@ -311,7 +331,7 @@ func c04Exec(c *c04Case, skip func(string)) (info c04Info, err error) {
 	}
 
 	for oi, op := range c.Ops {
-		when := fmt.Sprintf("op %d %+v", oi, op)
+		when := c04When{oi, op}
 		if (op.Op == "get" || op.Op == "ins" || op.Op == "rem") && (op.K < 0 || op.K >= n) {
 			skip("key-out-of-range")
 			info.skipped++
@@ -441,17 +461,30 @@ func c04Exec(c *c04Case, skip func(string)) (info c04Info, err error) {
 		}
 	}
 	// every history ends with a commit so that the publish rule is always exercised
-	if cerr := commit("final commit"); cerr != nil {
+	if cerr := commit(c04Str("final commit")); cerr != nil {
 		return info, cerr
 	}
 	resetView()
-	if serr := sweep("fresh view after final commit"); serr != nil {
+	if serr := sweep(c04Str("fresh view after final commit")); serr != nil {
 		return info, serr
 	}
 	return info, nil
 }
 
 const len4 = 4
+
+// lazily rendered positions for error messages (rendering per op is the
+// dominant cost of the exhaustive run otherwise)
+type c04When struct {
+	i  int
+	op c04Op
+}
+
+func (w c04When) String() string { return fmt.Sprintf("op %d %+v", w.i, w.op) }
+
+type c04Str string
+
+func (s c04Str) String() string { return string(s) }
 
 func c04Canon(c *c04Case) string {
 	var sb strings.Builder
@@ -499,8 +532,8 @@ func c04Gen(rt *rapid.T) c04Case {
 	}
 	kinds := []string{"ins", "ins", "ins", "ins", "ins", "rem", "rem", "rem", "rem", "rem", "get", "cp", "cp", "cp", "rb", "rb", "rb", "commit", "commit", "abandon"}
 	keyBias := []int{0, 0, 0, 0, 1, 1, 2, 3}
-	nops := rapid.IntRange(0, 40).Draw(rt, "nops")
-	for i := 0; i < nops; i++ {
+	// a slice of custom ops (not a drawn count + loop) so that rapid shrinks by removing ops
+	opGen := rapid.Custom(func(rt *rapid.T) c04Op {
 		op := c04Op{Op: rapid.SampledFrom(kinds).Draw(rt, "op")}
 		switch op.Op {
 		case "get", "rem":
@@ -511,8 +544,9 @@ func c04Gen(rt *rapid.T) c04Case {
 		case "rb":
 			op.I = rapid.IntRange(-2, 3).Draw(rt, "i")
 		}
-		c.Ops = append(c.Ops, op)
-	}
+		return op
+	})
+	c.Ops = rapid.SliceOfN(opGen, 0, 40).Draw(rt, "ops")
 	return c
 }
 
@@ -547,6 +581,7 @@ func TestC04Exhaustive(t *testing.T) {
 	}
 	st := vstat.New(t, "C04", fmt.Sprintf("exhaustive: every op sequence of length <=%d over 2 keys x 2 values (insert, remove, checkpoint, rollback to oldest/newest checkpoint, commit+new view; final commit appended) x every parent state {absent,A,B}^2 x every block-level pending change {none,tombstone,A,B}^2", depth))
 	st.Exhaustive = true
+	defer debug.SetGCPercent(debug.SetGCPercent(400)) // allocation-bound; trade memory for time
 	shard, nshards := 0, 1
 	if s, err := strconv.Atoi(os.Getenv("VERIF_SHARD")); err == nil {
 		if ns, err := strconv.Atoi(os.Getenv("VERIF_NSHARDS")); err == nil && ns > 0 && s >= 0 && s < ns {
